@@ -29,6 +29,25 @@ class Partial:
         return f"Partial({len(self.pieces)} pieces)"
 
 
+class Stale:
+    """What an earlier, crashed run left behind in a file (e.g. a half-written temporary file): bytes of unknown
+    content and unknown length - possibly LONGER than anything written later."""
+
+    def __repr__(self):
+        return "Stale"
+
+
+class Overlay:
+    """New pieces written from offset 0 over a body that was NOT truncated: the result is the new text followed by
+    whatever of the old body extends beyond it - not a complete document unless the old body was empty."""
+
+    def __init__(self, pieces, old):
+        self.pieces, self.old = list(pieces), old
+
+    def __repr__(self):
+        return f"Overlay({len(self.pieces)} pieces over {self.old!r})"
+
+
 ABSENT = None
 
 
@@ -118,17 +137,38 @@ class FS:
 
 
 class Handle:
-    def __init__(self, fs, path, mode):
+    def __init__(self, fs, path, mode, truncate=True, create=True, exclusive=False, append=False):
         self.fs, self.path, self.mode = fs, path, mode
         self.closed = False
+        self.over = None
+        if "x" in mode:
+            mode = self.mode = mode.replace("x", "w")
+            exclusive = True
+        if "a" in mode:
+            mode = self.mode = mode.replace("a", "w")
+            truncate, append = False, True
         if "w" in mode:
             fs.point()
+            if path not in fs._entries and getattr(fs, "stale_siblings", False) and path not in getattr(fs, "fresh_paths", ()):
+                # adversarial history: an earlier, crashed run may have left ANY sibling file behind (a temporary file
+                # half written, of unknown length)
+                fs._entries[path] = Inode(Stale())
             if path in fs._entries:
-                fs._entries[path].content = Partial([])       # truncation of the existing file body
+                if exclusive:
+                    raise FileExistsError(path)
+                old = fs._entries[path].content
+                if truncate or (isinstance(old, Partial) and not old.pieces):
+                    fs._entries[path].content = Partial([])       # truncation of the existing file body
+                else:
+                    # writing from offset 0 (or appending) into a body that keeps its old bytes
+                    self.over = ("append", old) if append else ("overlay", old)
+                    fs._entries[path].content = Overlay([], old)
             else:
+                if not create:
+                    raise FileNotFoundError(path)
                 fs._entries[path] = Inode(Partial([]))
             self.inode = fs._entries[path]
-            fs.effect("open-truncate", path)
+            fs.effect("open-truncate" if self.over is None else "open-keep", path)
         elif "r" in mode:
             if path not in fs._entries:
                 raise FileNotFoundError(path)
@@ -138,12 +178,14 @@ class Handle:
             raise NotImplementedError(mode)
 
     def write(self, piece):
+        mk = (lambda ps: Overlay(ps, self.over[1])) if self.over is not None else Partial
+
         def half():
-            self.inode.content = Partial(self.inode.content.pieces + [("prefix-of", piece)])
+            self.inode.content = mk(self.inode.content.pieces + [("prefix-of", piece)])
             self.fs.effect("write-partial", self.path)
         self.fs.point(half)
         cur = self.inode.content
-        self.inode.content = Partial(cur.pieces + [piece])
+        self.inode.content = mk(cur.pieces + [piece])
         self.fs.effect("write", self.path)
         return 1
 
@@ -159,7 +201,10 @@ class Handle:
         self.closed = True
         if "w" in self.mode:
             pieces = self.inode.content.pieces
-            if len(pieces) == 1 and isinstance(pieces[0], Doc):
+            if self.over is not None:
+                # the old bytes were kept: new text + the tail of the old body (or old body + new text) - never a document
+                self.inode.content = Doc((self.over[0], tuple(pieces), self.over[1]), "corrupt")
+            elif len(pieces) == 1 and isinstance(pieces[0], Doc):
                 self.inode.content = pieces[0]
             else:
                 self.inode.content = Doc(("concat", tuple(pieces)), "text")
@@ -289,7 +334,43 @@ class SpecOS:
     def getpid(self):
         return 4242
 
+    # low-level descriptors: os.open(path, flags, mode) + os.fdopen(fd, "w") / os.write / os.close
+    class _FD:
+        def __init__(self, path, flags):
+            self.path, self.flags, self.handle = path, flags, None
+
+    def open(self, path, flags, mode=0o777, *a, **k):
+        import os as _os
+        p = str(path)
+        acc = flags & (_os.O_WRONLY | _os.O_RDWR)
+        fd = SpecOS._FD(p, flags)
+        if acc:
+            fd.handle = Handle(self.fs, p, "w", truncate=bool(flags & _os.O_TRUNC), create=bool(flags & _os.O_CREAT),
+                               exclusive=bool(flags & _os.O_EXCL), append=bool(flags & _os.O_APPEND))
+        else:
+            if p not in self.fs._entries:
+                raise FileNotFoundError(p)
+        return fd
+
+    def fdopen(self, fd, mode="r", *a, **k):
+        if isinstance(fd, SpecOS._FD):
+            if fd.handle is not None:
+                return fd.handle
+            return Handle(self.fs, fd.path, "r")
+        raise NotImplementedError("os.fdopen of a descriptor that os.open did not return")
+
+    def write(self, fd, data):
+        fd.handle.write(data)
+        return len(data) if hasattr(data, "__len__") else 1
+
+    def close(self, fd):
+        if isinstance(fd, SpecOS._FD) and fd.handle is not None:
+            fd.handle.close()
+
     def __getattr__(self, name):
+        import os as _os
+        if name.startswith("O_") or name in ("SEEK_SET", "SEEK_END", "SEEK_CUR", "linesep", "name", "curdir", "pardir", "extsep", "devnull"):
+            return getattr(_os, name)
         raise NotImplementedError(f"os.{name} is outside the file-system contract")
 
 
